@@ -40,6 +40,7 @@ func runR02_2(c *Ctx, r *R) {
 	}
 	e.inferPost(cone)
 	e.inferPre(cone, module)
+	e.inferPreGuarded(cone, module)
 	e.inferPost(cone)
 	inCone := map[*ssa.Function]bool{}
 	for _, f := range cone {
